@@ -182,8 +182,9 @@ func (r *raftNode) shutdown() error {
 	}
 	r.closed = true
 	r.Unlock()
+	var stopped raft.Future
 	if r.Raft != nil {
-		r.Raft.Shutdown()
+		stopped = r.Raft.Shutdown()
 	}
 	if r.transport != nil {
 		if err := r.transport.Close(); err != nil {
@@ -191,7 +192,16 @@ func (r *raftNode) shutdown() error {
 		}
 	}
 	if r.store != nil {
-		if err := r.store.Close(); err != nil {
+		if stopped != nil {
+			// Raft's goroutines may still be using the log store, so only
+			// close it once they have stopped. Don't wait for that here
+			// since they can be blocked on the server being shut down.
+			store := r.store
+			go func() {
+				stopped.Error()
+				store.Close()
+			}()
+		} else if err := r.store.Close(); err != nil {
 			return err
 		}
 	}
